@@ -32,14 +32,11 @@ ASSUMPTIONS = [
 CASES = {"quick": 320, "thorough": 10000}
 
 
-results.WS_ROOT = "/tmp/vf-c12-ws"
-
-
 def extra(ctx):
     """scratch workspaces of this run are removed at the end"""
     import shutil
 
-    shutil.rmtree("/tmp/vf-c12-ws", ignore_errors=True)
+    shutil.rmtree(results.WS_ROOT, ignore_errors=True)
 
 
 def job_items(small_only=False):
@@ -168,7 +165,8 @@ def chain_project(item):
     import os
 
     d, v = item["depth"], item["variant"]
-    base = os.path.join(results.WS_ROOT, f"chain-{d}-{v}")
+    # (one directory per process: the 16 shards of a run draw the same few projects and must not rewrite each other's files)
+    base = os.path.join(results.WS_ROOT, f"chain-{os.getpid()}-{d}-{v}")
     os.makedirs(base, exist_ok=True)
     for k in range(d):
         nxt = f'import "./lib{k + 1}.exps";\n' if k + 1 < d else ""
